@@ -208,8 +208,10 @@ def ghostOf (B : Nat) (cr : CellRec) : Option CellRec :=
   else some { cr with agents := cr.agents.map (· + B), conn := [], rnd := cr.rnd + B, klass := none }
 
 /-- the code before S22: as `copyWorld`, but every occupied cell `c` is reconstructed a second time (identity `c + 2·next`)
-    and the copied agents point to that one.  (With several agents in one cell the old code nested one further
-    reconstruction per agent; the refutation only needs one agent.) -/
+    and the copied agents point to that one.  This is the old `deepcopy` exactly when one agent is placed (the refutation
+    in `Props/C19Occ.lean` uses such a world); with several placed agents the old traversal duplicated the cell of the agent
+    it reached first only (the model, reached through that agent, pulled in the other agents and their cells before the space
+    got to them), and nested one further reconstruction per agent sharing that cell. -/
 def ghostWorld (w : World) (s : Nat) (sr : SpaceRec) : World :=
   let B := w.next
   let w1 := copyWorld w s sr
